@@ -24,6 +24,7 @@ import (
 	"github.com/c2h5oh/datasize"
 	"github.com/uber-go/tally"
 	"go.uber.org/zap"
+	"go.uber.org/zap/zapcore"
 
 	"github.com/uber/kraken/core"
 	"github.com/uber/kraken/lib/backend"
@@ -56,6 +57,19 @@ func (fakeClusterProvider) Provide(dns string) (blobclient.ClusterClient, error)
 	return nil, fmt.Errorf("no remote clusters in this harness")
 }
 
+// keepCore lets errors through and, of the lower levels, only the lines the
+// parent's classification needs.
+type keepCore struct{ zapcore.Core }
+
+func (k *keepCore) With(f []zapcore.Field) zapcore.Core { return &keepCore{k.Core.With(f)} }
+
+func (k *keepCore) Check(e zapcore.Entry, ce *zapcore.CheckedEntry) *zapcore.CheckedEntry {
+	if e.Level >= zapcore.ErrorLevel || e.Message == "Starting write-back process" || e.Message == "Successfully completed writeback task" {
+		return ce.AddCore(e, k.Core)
+	}
+	return ce
+}
+
 type request struct {
 	Op      string `json:"op"`
 	Seconds int64  `json:"seconds"`
@@ -71,20 +85,30 @@ func main() {
 	ttlSec := flag.Int64("ttl-sec", 7200, "cache cleanup TTL")
 	flag.Parse()
 
-	// the origin's own error log is kept (file per process) so that the parent
-	// can quote what the real code said about a digest it lost
+	// the origin's own log is kept (file per process) so that the parent can quote
+	// what the real code said about a digest it lost: all errors, plus the two
+	// debug lines that order "commit set the persist flag" against "a write-back
+	// finished and cleared it"
 	zc := zap.NewProductionConfig()
-	zc.Level = zap.NewAtomicLevelAt(zap.ErrorLevel)
+	zc.Level = zap.NewAtomicLevelAt(zap.DebugLevel)
+	zc.Sampling = nil
 	zc.DisableStacktrace = true
 	zc.OutputPaths = []string{filepath.Join(*dir, fmt.Sprintf("origin-errors.%d.log", os.Getpid()))}
 	zc.ErrorOutputPaths = zc.OutputPaths
+	filtered := true
 	if lf := os.Getenv("C31_ORIGIN_LOG"); lf != "" {
 		zc = zap.NewDevelopmentConfig()
 		zc.OutputPaths = []string{fmt.Sprintf("%s.%d", lf, os.Getpid())}
 		zc.ErrorOutputPaths = zc.OutputPaths
+		filtered = false
 	}
 	must(os.MkdirAll(*dir, 0o755), "mkdir")
-	log.ConfigureLogger(zc)
+	zl, err := zc.Build(zap.AddCallerSkip(1))
+	must(err, "logger")
+	if filtered {
+		zl = zl.WithOptions(zap.WrapCore(func(c zapcore.Core) zapcore.Core { return &keepCore{c} }))
+	}
+	log.SetGlobalLogger(zl.Sugar())
 
 	// The clock the store and the blob server see is real time plus an offset the
 	// parent advances: file mtimes are real, so a frozen mock would make freshly
